@@ -3,7 +3,7 @@ from checks.common import *
 from checks import cryptstream as CS, settings as S
 from checks.cryptstream import finish_proof
 
-WRAPS = ("arc4random_buf", "malloc", "realloc", "free", "mmap", "munmap")
+WRAPS = ("arc4random_buf", "malloc", "calloc", "realloc", "free", "mmap", "munmap")
 SIZEOF = 32768
 
 def run(R):
@@ -12,6 +12,12 @@ def run(R):
     requests = [(b"pw", S.CANON[m]) for m in ("md5crypt", "sha256crypt", "descrypt", "bcrypt", "nt", "yescrypt", "bsdicrypt")] + \
                [(b"pw", b"*0"), (None, b"$1$x"), (b"pw", b"$1$bad:salt"), (b"x" * 600, b"$1$x"), (b"pw", b"$zz$"), (b"pw", None)]
     groups = []
+    # fixed coverage: every kind of start the caller may hand in, each followed by two calls and the caller's free (seeded/C14e: a non-NULL block
+    # with recorded size 0)
+    for mode in ("null", "valid", "small 0", "small 1", "small 100", "small %d" % (SIZEOF - 1), "neg 1", "neg 100000", "big 1", "big 4096", "nullsize 64", "nullsize -3"):
+        for req in (requests[0], requests[7]):
+            ra = "RA 0 %s %s" % tuple(hx(x) for x in req)
+            groups.append(["RASET 0 " + mode, ra, ra, "RAFREE 0"])
     for h in range(40 if quick else 1500):
         g = []
         for slot in range(2): g.append("RASET %d null" % slot)
@@ -63,6 +69,7 @@ def run(R):
                 if int(f["size"]) < SIZEOF: why = "*size %s after growth is below sizeof (struct crypt_data)" % f["size"]
                 elif f.get("oldzero") == "0" and 0 < sizeb: why = "the undersized block was not erased before realloc"
                 elif f.get("wz") == "0": why = "a block that had to grow is not zero-initialised afterwards (its scratch areas hold what the allocator returned)"
+            if f.get("oldlive") == "1": why = "*data was replaced but the caller's previous block is still allocated: nobody holds its address any more (leak)"
             if f.get("ret") == "other": why = "the result does not point to the output field of *data"
             needs_alloc = f.get("datab") == "null" or sizeb < SIZEOF
             if f.get("fired") == "1" and needs_alloc and (f.get("ret") != "NULL" or f.get("errno") != "ENOMEM" or int(f["size"]) != sizeb):
